@@ -164,6 +164,49 @@ theorem hasCycle_sound (h : Hist) (hc : Spec.Rev.hasCycle h = true) : HasCycle (
     unfold ids
     exact List.mem_map.mpr ⟨rv, hm, he⟩
 
+/-- **…and conversely: when the history contains a directed cycle the oracle says "cyclic"**, so a
+"no cycle" verdict means the history as written is acyclic (and the implementation must accept
+it).  Among the members of a self-sustaining set take one with the fewest members of the set
+reachable from its prerequisites; if no member lay on a cycle, its prerequisite inside the set
+would have strictly fewer. -/
+theorem hasCycle_complete (h : Hist) (hc : HasCycle (parents h) (ids h)) : Spec.Rev.hasCycle h = true := by
+  apply Classical.byContradiction
+  intro hno
+  -- no revision is reachable from one of its own prerequisites
+  have hfree : ∀ i ∈ ids h, ∀ q ∈ parents h i, ¬ Reach (parents h) q i := by
+    intro i hi q hq hr
+    apply hno
+    unfold Spec.Rev.hasCycle
+    simp only [List.any_eq_true, decide_eq_true_eq]
+    exact ⟨i, hi, q, hq, (mem_ancSet_iff h [q] i).mpr ⟨q, List.mem_singleton.mpr rfl, hr⟩⟩
+  obtain ⟨S, hne, hS⟩ := hc
+  -- number of members of S reachable from the prerequisites of x
+  let below : Id → Id → Bool := fun x y => @decide (∃ q ∈ parents h x, Reach (parents h) q y) (Classical.propDecidable _)
+  let mu : Id → Nat := fun x => (S.filter (below x)).length
+  obtain ⟨x, hx, hmin⟩ := exists_min_rank mu S hne
+  obtain ⟨hxi, p, hp, hpS⟩ := hS x hx
+  have hlt : mu p < mu x := by
+    apply filter_length_lt (w := p)
+    · intro y hy
+      have hy' : ∃ q ∈ parents h p, Reach (parents h) q y := by
+        simpa [below] using hy
+      obtain ⟨q, hq, hr⟩ := hy'
+      have : ∃ q' ∈ parents h x, Reach (parents h) q' y := ⟨p, hp, Reach.step hq hr⟩
+      simpa [below] using this
+    · exact hpS
+    · have : ∃ q' ∈ parents h x, Reach (parents h) q' p := ⟨p, hp, Reach.refl p⟩
+      simpa [below] using this
+    · have hnp : ¬ ∃ q ∈ parents h p, Reach (parents h) q p := by
+        rintro ⟨q, hq, hr⟩
+        exact hfree p (hS p hpS).1 q hq hr
+      simpa [below] using hnp
+  have := hmin p hpS
+  omega
+
+/-- the cycle oracle decides the existence of a directed cycle in the history as written -/
+theorem hasCycle_iff (h : Hist) : Spec.Rev.hasCycle h = true ↔ HasCycle (parents h) (ids h) :=
+  ⟨hasCycle_sound h, hasCycle_complete h⟩
+
 /-! ### non-vacuity and the repaired defect -/
 
 /-- the witness of the repaired defect F1 (`a <- (), b <- c, c <- d, d <- (a, c)`): reachable from
